@@ -767,28 +767,30 @@ Definition sx_ref (m : mem) (tm : list (str * oid)) (r : tref) : sx :=
   | SL [n; b] => SL [SL (ref_wrappers r); n; b]
   | x => x
   end.
+(* the schema directives applied to an element (read from its AST nodes) *)
+Definition sx_dirs (ds : list dirapp) : sx := SL (map (fun d => SL [SS (fst d); sx_ostr (snd d)]) ds).
 Definition sx_input (m : mem) (tm : list (str * oid)) (o : oid) : sx :=
   match mget m o with
-  | Some (OInput _ n py ty df d _) =>
-      SL [SS n; SS py; sx_ref m tm ty; SL (match df with Some v => [sx_pv v] | None => [] end); sx_ostr d]
+  | Some (OInput _ n py ty df d ds) =>
+      SL [SS n; SS py; sx_ref m tm ty; SL (match df with Some v => [sx_pv v] | None => [] end); sx_ostr d; sx_dirs ds]
   | _ => SA 99
   end.
 Definition sx_field (m : mem) (tm : list (str * oid)) (o : oid) : sx :=
   match mget m o with
-  | Some (OField n py ty args d dp r s _) =>
-      SL [SS n; SS py; sx_ref m tm ty; SL (map (sx_input m tm) args); sx_ostr d; sx_ostr dp; sx_on r; sx_on s]
+  | Some (OField n py ty args d dp r s ds) =>
+      SL [SS n; SS py; sx_ref m tm ty; SL (map (sx_input m tm) args); sx_ostr d; sx_ostr dp; sx_on r; sx_on s; sx_dirs ds]
   | _ => SA 99
   end.
 Definition sx_enumv (m : mem) (o : oid) : sx :=
   match mget m o with
-  | Some (OEnumV n v d dp _) => SL [SS n; sx_pv v; sx_ostr d; sx_ostr dp]
+  | Some (OEnumV n v d dp ds) => SL [SS n; sx_pv v; sx_ostr d; sx_ostr dp; sx_dirs ds]
   | _ => SA 99
   end.
 Definition kind_code (k : kind) : N :=
   match k with Kscalar => 0 | Kobject => 1 | Kinterface => 2 | Kunion => 3 | Kenum => 4 | Kinput => 5 end.
 Definition sx_type (m : mem) (tm : list (str * oid)) (o : oid) : sx :=
   match mget m o with
-  | Some (OType n k d members ifaces r _) =>
+  | Some (OType n k d members ifaces r ds) =>
       SL [SS n; SA (kind_code k); sx_ostr d;
           SL (match k with
               | Kobject | Kinterface => map (sx_field m tm) members
@@ -796,7 +798,7 @@ Definition sx_type (m : mem) (tm : list (str * oid)) (o : oid) : sx :=
               | Kenum => map (sx_enumv m) members
               | _ => []
               end);
-          SL (map (sx_named m tm) ifaces); sx_on r]
+          SL (map (sx_named m tm) ifaces); sx_on r; sx_dirs ds]
   | _ => SA 99
   end.
 Definition sx_dir (m : mem) (tm : list (str * oid)) (o : oid) : sx :=
